@@ -38,75 +38,80 @@ void h_avx2_pack_bools_bounded(void) {
   CQV_CANARY("returns");
 }
 
-/* dictionary gathers, bounded in count (0..40), symbolic data.  indices and output are exact-size heap
- * objects (any load of indices outside [0,count) and any store outside output[0,count) is out of
- * bounds); the dictionary has dn <= 64 entries and every index is < dn (the kernel domain; the gather
- * instructions sign-extend the 32-bit index, so indices >= 2^31 are outside the domain of these kernels). */
+/* dictionary gathers, bounded in count (0..40), symbolic data.  indices is an exact-size heap object
+ * (any load of indices outside [0,count) is out of bounds); output has 16 guard elements after
+ * output[count) that must keep their value (a vector store reaches at most 64 bytes further); the
+ * dictionary has 64 entries and every index is < 64 (the kernel domain; the gather instructions
+ * sign-extend the 32-bit index, so indices >= 2^31 are outside the domain of these kernels). */
 #define GCAP 40
 void h_avx2_gather_i32_bounded(void) {
-  int64_t count = nondet_i64(); size_t dn = nondet_size_t();
-  __CPROVER_assume(0 <= count && count <= GCAP && dn >= 1 && dn <= 64);
-  int32_t *dict = malloc(dn * 4);
+  int64_t count = nondet_i64();
+  __CPROVER_assume(0 <= count && count <= GCAP);
+  int32_t dict[64], output[GCAP + 16];
   uint32_t *indices = malloc((size_t)count * 4);
-  int32_t *output = malloc((size_t)count * 4);
-  __CPROVER_assume(dict != NULL && indices != NULL && output != NULL);
-  for (int64_t j = 0; j < GCAP; j++) if (j < count) __CPROVER_assume(indices[j] < dn);
-  int64_t k = nondet_i64();
-  __CPROVER_assume(0 <= k && k < count);
+  __CPROVER_assume(indices != NULL);
+  for (int64_t j = 0; j < GCAP; j++) if (j < count) __CPROVER_assume(indices[j] < 64);
+  int64_t k = nondet_i64(), m = nondet_i64();
+  __CPROVER_assume(0 <= k && k < count && count <= m && m < GCAP + 16);
+  uint32_t old_m = ((const uint32_t *)output)[m];
   uint32_t want = ((const uint32_t *)dict)[indices[k]];
   carquet_avx2_gather_i32(dict, indices, count, output);
   __CPROVER_assert(((const uint32_t *)output)[k] == want, "output[k] == dict[indices[k]]");
+  __CPROVER_assert(((const uint32_t *)output)[m] == old_m, "no store at or after output + count");
   if (count == GCAP) CQV_CANARY("full-width steps taken");
   if (count == 39) CQV_CANARY("vector steps and scalar remainder taken");
   CQV_CANARY("returns");
 }
 void h_avx2_gather_i64_bounded(void) {
-  int64_t count = nondet_i64(); size_t dn = nondet_size_t();
-  __CPROVER_assume(0 <= count && count <= GCAP && dn >= 1 && dn <= 64);
-  int64_t *dict = malloc(dn * 8);
+  int64_t count = nondet_i64();
+  __CPROVER_assume(0 <= count && count <= GCAP);
+  int64_t dict[64], output[GCAP + 16];
   uint32_t *indices = malloc((size_t)count * 4);
-  int64_t *output = malloc((size_t)count * 8);
-  __CPROVER_assume(dict != NULL && indices != NULL && output != NULL);
-  for (int64_t j = 0; j < GCAP; j++) if (j < count) __CPROVER_assume(indices[j] < dn);
-  int64_t k = nondet_i64();
-  __CPROVER_assume(0 <= k && k < count);
+  __CPROVER_assume(indices != NULL);
+  for (int64_t j = 0; j < GCAP; j++) if (j < count) __CPROVER_assume(indices[j] < 64);
+  int64_t k = nondet_i64(), m = nondet_i64();
+  __CPROVER_assume(0 <= k && k < count && count <= m && m < GCAP + 16);
+  uint64_t old_m = ((const uint64_t *)output)[m];
   uint64_t want = ((const uint64_t *)dict)[indices[k]];
   carquet_avx2_gather_i64(dict, indices, count, output);
   __CPROVER_assert(((const uint64_t *)output)[k] == want, "output[k] == dict[indices[k]]");
+  __CPROVER_assert(((const uint64_t *)output)[m] == old_m, "no store at or after output + count");
   if (count == GCAP) CQV_CANARY("full-width steps taken");
   if (count == 39) CQV_CANARY("vector steps and scalar remainder taken");
   CQV_CANARY("returns");
 }
 void h_avx2_gather_float_bounded(void) {
-  int64_t count = nondet_i64(); size_t dn = nondet_size_t();
-  __CPROVER_assume(0 <= count && count <= GCAP && dn >= 1 && dn <= 64);
-  float *dict = malloc(dn * 4);
+  int64_t count = nondet_i64();
+  __CPROVER_assume(0 <= count && count <= GCAP);
+  float dict[64], output[GCAP + 16];
   uint32_t *indices = malloc((size_t)count * 4);
-  float *output = malloc((size_t)count * 4);
-  __CPROVER_assume(dict != NULL && indices != NULL && output != NULL);
-  for (int64_t j = 0; j < GCAP; j++) if (j < count) __CPROVER_assume(indices[j] < dn);
-  int64_t k = nondet_i64();
-  __CPROVER_assume(0 <= k && k < count);
+  __CPROVER_assume(indices != NULL);
+  for (int64_t j = 0; j < GCAP; j++) if (j < count) __CPROVER_assume(indices[j] < 64);
+  int64_t k = nondet_i64(), m = nondet_i64();
+  __CPROVER_assume(0 <= k && k < count && count <= m && m < GCAP + 16);
+  uint32_t old_m = ((const uint32_t *)output)[m];
   uint32_t want = ((const uint32_t *)dict)[indices[k]];
   carquet_avx2_gather_float(dict, indices, count, output);
   __CPROVER_assert(((const uint32_t *)output)[k] == want, "output[k] == dict[indices[k]]");
+  __CPROVER_assert(((const uint32_t *)output)[m] == old_m, "no store at or after output + count");
   if (count == GCAP) CQV_CANARY("full-width steps taken");
   if (count == 39) CQV_CANARY("vector steps and scalar remainder taken");
   CQV_CANARY("returns");
 }
 void h_avx2_gather_double_bounded(void) {
-  int64_t count = nondet_i64(); size_t dn = nondet_size_t();
-  __CPROVER_assume(0 <= count && count <= GCAP && dn >= 1 && dn <= 64);
-  double *dict = malloc(dn * 8);
+  int64_t count = nondet_i64();
+  __CPROVER_assume(0 <= count && count <= GCAP);
+  double dict[64], output[GCAP + 16];
   uint32_t *indices = malloc((size_t)count * 4);
-  double *output = malloc((size_t)count * 8);
-  __CPROVER_assume(dict != NULL && indices != NULL && output != NULL);
-  for (int64_t j = 0; j < GCAP; j++) if (j < count) __CPROVER_assume(indices[j] < dn);
-  int64_t k = nondet_i64();
-  __CPROVER_assume(0 <= k && k < count);
+  __CPROVER_assume(indices != NULL);
+  for (int64_t j = 0; j < GCAP; j++) if (j < count) __CPROVER_assume(indices[j] < 64);
+  int64_t k = nondet_i64(), m = nondet_i64();
+  __CPROVER_assume(0 <= k && k < count && count <= m && m < GCAP + 16);
+  uint64_t old_m = ((const uint64_t *)output)[m];
   uint64_t want = ((const uint64_t *)dict)[indices[k]];
   carquet_avx2_gather_double(dict, indices, count, output);
   __CPROVER_assert(((const uint64_t *)output)[k] == want, "output[k] == dict[indices[k]]");
+  __CPROVER_assert(((const uint64_t *)output)[m] == old_m, "no store at or after output + count");
   if (count == GCAP) CQV_CANARY("full-width steps taken");
   if (count == 39) CQV_CANARY("vector steps and scalar remainder taken");
   CQV_CANARY("returns");
